@@ -10,6 +10,23 @@ use std::path::Path;
 
 use yuvxyb::{ColorPrimaries, FromPrimitive, MatrixCoefficients, TransferCharacteristic};
 
+/// A panic of the code under test is DATA (the event gets res = "panic" and TLC rejects it), never a crash of the harness.
+pub fn guard<T>(f: impl FnOnce() -> T) -> Result<T, &'static str> {
+    std::panic::catch_unwind(std::panic::AssertUnwindSafe(f)).map_err(|_| "panic")
+}
+pub fn guard2<T>(f: impl FnOnce() -> Result<T, &'static str>) -> Result<T, &'static str> {
+    match std::panic::catch_unwind(std::panic::AssertUnwindSafe(f)) {
+        Ok(r) => r,
+        Err(_) => Err("panic"),
+    }
+}
+pub fn guard_s<T>(f: impl FnOnce() -> Result<T, String>) -> Result<T, String> {
+    match std::panic::catch_unwind(std::panic::AssertUnwindSafe(f)) {
+        Ok(r) => r,
+        Err(_) => Err("panic".to_string()),
+    }
+}
+
 // ---------------------------------------------------------------------------------------------
 // RNG: splitmix64 (deterministic from VERIF_SEED)
 #[derive(Clone)]
